@@ -341,17 +341,18 @@ var c13Specs = map[string]struct {
 	"Tail":       {[]string{"pre(not(len(p0) == 0)) slice(p0, 1, (), ())"}, "everything but the first element"},
 	"PopLast":    {[]string{"slice(p0, 0, (len(p0) - 1), ())", "slice(p0, (), (len(p0) - 1), ())"}, "everything but the last element"},
 	// an explicit leading panic on exactly the condition under which the indexing itself would panic does not change the (partial) function
-	"Take":     {[]string{"Compr($0 in [0, p0): p1[$0])", "pre(not(p0 > len(p1))) Compr($0 in [0, p0): p1[$0])", "pre(not(len(p1) < p0)) Compr($0 in [0, p0): p1[$0])"}, "the first n elements in order"},
-	"Skip":     {[]string{"Compr($0 in [p0, len(p1)): p1[$0])"}, "the elements from index n on, in order"},
-	"Map":      {[]string{"Compr($0 in p1: p0($0))"}, "f applied to each element, order preserved"},
-	"Mapi":     {[]string{"Compr($0,$1 in p1: p0($0, $1))"}, "f applied to index and element, order preserved"},
-	"Iter":     {[]string{"Each($0 in p1: p0($0))"}, "action applied to each element left to right"},
-	"Filter":   {[]string{"Compr($0 in p1 | p0($0): $0)"}, "the elements satisfying the predicate, order preserved"},
-	"Sort":     {[]string{"Sorted(copy(p0), cmp.Compare)"}, "ascending permutation of a copy"},
-	"SortBy":   {[]string{`Sorted(copy(p1), \x0 x1. cmp.Compare(p0(x0), p0(x1)))`}, "ascending (by key) permutation of a copy; every element kept"},
-	"Zip":      {[]string{"pre(not(len(p0) != len(p1))) Compr($0,$1 in p0: ($1, p1[$0]))"}, "positional pairs of two slices of equal length"},
-	"Forall":   {[]string{"First($0 in p1 | not(p0($0)): false; else true)"}, "scan left to right, false at the first counterexample"},
-	"Forany":   {[]string{"First($0 in p1 | p0($0): true; else false)"}, "scan left to right, true at the first witness"},
+	"Take":   {[]string{"Compr($0 in [0, p0): p1[$0])", "pre(not(p0 > len(p1))) Compr($0 in [0, p0): p1[$0])", "pre(not(len(p1) < p0)) Compr($0 in [0, p0): p1[$0])"}, "the first n elements in order"},
+	"Skip":   {[]string{"Compr($0 in [p0, len(p1)): p1[$0])"}, "the elements from index n on, in order"},
+	"Map":    {[]string{"Compr($0 in p1: p0($0))"}, "f applied to each element, order preserved"},
+	"Mapi":   {[]string{"Compr($0,$1 in p1: p0($0, $1))"}, "f applied to index and element, order preserved"},
+	"Iter":   {[]string{"Each($0 in p1: p0($0))"}, "action applied to each element left to right"},
+	"Filter": {[]string{"Compr($0 in p1 | p0($0): $0)"}, "the elements satisfying the predicate, order preserved"},
+	"Sort":   {[]string{"Sorted(copy(p0), cmp.Compare)"}, "ascending permutation of a copy"},
+	"SortBy": {[]string{`Sorted(copy(p1), \x0 x1. cmp.Compare(p0(x0), p0(x1)))`}, "ascending (by key) permutation of a copy; every element kept"},
+	"Zip":    {[]string{"pre(not(len(p0) != len(p1))) Compr($0,$1 in p0: ($1, p1[$0]))"}, "positional pairs of two slices of equal length"},
+	// the standard-library scans are the same left-to-right first-match scan
+	"Forall":   {[]string{"First($0 in p1 | not(p0($0)): false; else true)", `(slices.IndexFunc(p1, \x0. not(p0(x0))) < 0)`, `(slices.IndexFunc(p1, \x0. not(p0(x0))) == -1)`, `not(slices.ContainsFunc(p1, \x0. not(p0(x0))))`}, "scan left to right, false at the first counterexample"},
+	"Forany":   {[]string{"First($0 in p1 | p0($0): true; else false)", "(slices.IndexFunc(p1, p0) >= 0)", "(slices.IndexFunc(p1, p0) != -1)", "slices.ContainsFunc(p1, p0)"}, "scan left to right, true at the first witness"},
 	"TryFind":  {[]string{"First($0 in p1 | p0($0): ($0, true); else (zero[T], false))"}, "the FIRST element satisfying the predicate"},
 	"PushLast": {[]string{"append(slice(p1, (), len(p1), len(p1)), p0)"}, "s followed by elem (on a clipped view, C12)"},
 	"PushHead": {[]string{"append([p0], p1...)"}, "elem followed by s"},
